@@ -86,6 +86,12 @@ func observeFront(src string) (o frontObs) {
 	return o
 }
 
+// a one-character first token at the very start of the file really spans 1:1 - 1:1
+func firstTokenEndsAtOrigin(src string) bool {
+	toks, _, _, _ := bcl.Lex(src, true)
+	return len(toks) > 0 && toks[0].End.Line == 0 && toks[0].End.Column == 0
+}
+
 func locSpans(ls []cmpb.Loc) []span4 {
 	out := make([]span4, len(ls))
 	for i, l := range ls {
@@ -223,6 +229,24 @@ func walkerInputs() []string {
 		"object Foo {\n  field f float:FLOAT32 {\n    rules.minimum = 1.5e400\n  }\n}\n",
 		"object Foo {\n  field f bool {\n    rules.const = maybe\n  }\n}\n",
 		"object Foo {\n  field f date {\n    rules.minimum = 2020\n  }\n}\n",
+		"object Foo {\n  field f \"quoted\"\n}\n",
+		"object Foo {\n  field f string:\"q\"\n}\n",
+		"object Foo {\n  field f key:\"id62\"\n}\n",
+		"object Foo {\n  field \"f\" string\n}\n",
+		"object \"Foo\" {\n}\n",
+		"import foo.v1 | described import\n",
+		"import foo.v1 {\n  | described import\n}\n",
+		"service Things | the things\n",
+		"service Things {\n  | the things\n  method Get | gets\n}\n",
+		"topic Thing publish | posts\n",
+		"object Foo {\n  field f object:Bar | a bar\n  field g enum {\n    | kinds\n    option A\n  }\n}\n",
+		"object Foo {\n  field f string {\n    rules | nope\n  }\n}\n",
+		"object Foo {\n  field f string {\n    rules {\n      | nope\n    }\n  }\n}\n",
+		"object Foo {\n  field f object {\n    ref = []\n  }\n}\n",
+		"object Foo {\n  field f object {\n    ref = [\"a\", \"b\", \"c\"]\n  }\n}\n",
+		"object Foo {\n  field f object {\n    ref = \"foo.v1.Bar\"\n  }\n}\n",
+		"object Foo {\n  field f object {\n    ref = 7\n  }\n}\n",
+		"object Foo {\n  field f object {\n    ref += \"a\"\n  }\n}\n",
 	}
 	out := make([]string, 0, len(bodies)+2)
 	for _, b := range bodies {
@@ -372,6 +396,19 @@ func runFront(cfg *vh.Config, res *vh.Result, caseNo *int, texts []string, how [
 				res.Count("front_err_walker")
 			}
 			checkPositions(res, *caseNo, "front", "front end", o.ErrPos, content, mainFile, in)
+			if !o.FromParser && !firstTokenEndsAtOrigin(src) {
+				// errpos.AddFilename gives an error without a position the zero Position (file:1:1): that is not
+				// a position of the error. (A lexer diagnostic on the first character legitimately is 1:1.)
+				for _, p := range o.ErrPos {
+					if p.HasPos && p.StartLine == 0 && p.StartCol == 0 && p.EndLine == 0 && p.EndCol == 0 {
+						res.Fail(vh.Failure{Case: *caseNo, Stream: "front",
+							Sig:    "C07 error position: only the default position 1:1 (" + errClass(p.Msg) + ")",
+							Clause: "errors carry a position inside the offending file", Input: in,
+							Got: fmt.Sprintf("walker-stage error positioned at the zero Position: %+v", p)})
+						break
+					}
+				}
+			}
 			sp, all := errSpans(o.ErrPos)
 			if all && len(src) <= 2500 {
 				terms = append(terms, fmt.Sprintf("CFrontErrs %s %s %s", vh.BytesTerm(src), b(o.FromParser), spansCoq(sp)))
